@@ -114,6 +114,9 @@ func (t *rtpDownTrack) VerifLossCeiling() (rate uint64, setAt uint64) {
 	return atomic.LoadUint64(&t.maxBitrate.bitrate), atomic.LoadUint64(&t.maxBitrate.jiffies)
 }
 
+// VerifLayerWord is the raw layer word (no probe, no scheduling point).
+func (t *rtpDownTrack) VerifLayerWord() uint32 { return atomic.LoadUint32(&t.atomics.layerInfo) }
+
 // VerifLossCeilingNow is the loss-based ceiling as every user of it reads
 // it (bitrate.Get at the current instant): ^0 means "no recent feedback".
 func (t *rtpDownTrack) VerifLossCeilingNow() uint64 {
